@@ -32,3 +32,39 @@ Fixpoint s_run (purge : bool) (st : state) (ds : list diff) : list state :=
   | [] => []
   | d :: r => let st' := apply_diff purge st d in st' :: s_run purge st' r
   end.
+
+(* ---------- the legacy flat trie (Trie1.v), term instance ---------- *)
+From V Require C01.Trie1.
+
+Definition t1_state := Trie1.fstate term.
+Definition t1_empty : t1_state := Trie1.empty1 term.
+Definition t1_put (hf : term -> term -> term) (st : t1_state) (k : list bool) (v : Z) : option t1_state :=
+  Trie1.put term tzero hf TPath TAddLen st k (TC v).
+Definition t1_commit (hf : term -> term -> term) (h : nat) (st : t1_state) : option (t1_state * term) :=
+  Trie1.commit term hf TPath TAddLen (TC 0) h st.
+
+Inductive t1_res := T1Root (t : term) | T1Skip | T1Err.
+
+(* ops: (key, value, call Hash() after this Put?) *)
+Fixpoint t1_run (hf : term -> term -> term) (h : nat) (st : t1_state) (ops : list (Z * Z * bool))
+  : list t1_res * option t1_state :=
+  match ops with
+  | [] => ([], Some st)
+  | (k, v, hashit) :: r =>
+      match t1_put hf st (bits_of_Z h k) v with
+      | None => ([T1Err], None)
+      | Some st1 =>
+          if hashit then
+            match t1_commit hf h st1 with
+            | None => ([T1Err], None)
+            | Some (st2, rt) => let '(l, f) := t1_run hf h st2 r in (T1Root rt :: l, f)
+            end
+          else let '(l, f) := t1_run hf h st1 r in (T1Skip :: l, f)
+      end
+  end.
+
+(* the stored node map: (key, left link, right link, stored value) *)
+Definition t1_dump (st : t1_state) : list (list bool * option (list bool) * option (list bool) * term) :=
+  map (fun ke => (fst ke, Trie1.nleft (snd ke), Trie1.nright (snd ke), Trie1.nval (snd ke))) (Trie1.nodes st).
+Definition t1_root_key (st : t1_state) : option (list bool) := Trie1.root_key st.
+Definition t1_dirty (st : t1_state) : list (list bool) := Trie1.dirty st.
